@@ -8,5 +8,6 @@ CONSTANTS
  FixDetector = TRUE
  FixNifty = TRUE
  AtomicAdopt = FALSE
+ RefreshExpected = TRUE
 INVARIANT NoShare
 CHECK_DEADLOCK FALSE
